@@ -166,6 +166,7 @@ uint64_t gen_sample_bits(int dtype, int g, uint64_t gs, int64_t abs_id, uint64_t
             case G_DECADES: { uint64_t r = mix(gs, local); int e = (int) (r % 25) - 12; double m = ((r >> 8) % 20001) / 10000.0 - 1.0; v = m * pow(10.0, e); break; }
             case G_CBLOCKS: v = (double) ((abs_id >> 4) & 3); break;
             case G_NANS: { uint64_t r = mix(gs, local); if (r % 7 == 0) v = NAN; else if (r % 97 == 1) v = INFINITY; else v = (double) (int64_t) (r % 2001) - 1000.0; break; }
+            case G_OFFSET: { uint64_t r = mix(gs, local); v = dtype == DT_F32 ? 4096.0 + ((double) (int64_t) (r % 2001) - 1000.0) / 262144.0 : 1.0e12 + ((double) (int64_t) (r % 2001) - 1000.0) / 1024.0; break; }
             default: { uint64_t r = mix(gs, local); v = ((double) (int64_t) (r % 2000001) - 1000000.0) / 1000.0; break; }
         }
         if (dtype == DT_F32) { float f = (float) v; uint32_t u; memcpy(&u, &f, 4); return u; }
@@ -182,6 +183,7 @@ uint64_t gen_sample_bits(int dtype, int g, uint64_t gs, int64_t abs_id, uint64_t
             r = sel == 0 ? 0 : sel == 1 ? mask : sel == 2 ? mix(gs, run + 99) : mix(gs ^ (uint64_t) abs_id, local);
             break;
         }
+        case G_OFFSET: r = bits >= 16 ? (mask >> 2) - (gs & 0xff) + (mix(gs, local) % 17) : mix(gs, local); if (bits == 64) r = (1ULL << 52) + (mix(gs, local) % 17); break;
         default: r = mix(gs, local); break;
     }
     if (bits == 64 && (g == G_RANDOM || g == G_RAMP)) {
